@@ -127,6 +127,43 @@ def dedup_case(arg):
     return res
 
 
+def live_case(arg):
+    """A small file changes between the moment the command collected (stat-ed, ordered) its files and the moment it reads it — a live log,
+    a rotated file.  Whatever was read, the data of the OTHER, unchanged files must still de-duplicate against the previous snapshot:
+    the bytes uploaded again stay within the edited file + the re-synchronisation window of the chunker (C11: 16·max, min ≤ max/16)."""
+    seed, idx = arg
+    from .. import common
+    from ..impl.livefile import live_edit
+    common.use_rebuilt_chunker()
+    r = rng_for(seed, 'C07-live', idx)
+    res = {'idx': idx, 'violations': []}
+    enc = r.random() < 0.7
+    chunking = r.choice([(8, 128), (16, 256), (8, 256)])
+    mx = chunking[1]
+    conc = r.choice([1, 2, 4])
+    with R.Scratch(f'c07l_{idx}') as sc:
+        w = World(sc, enc=enc, chunking=chunking, concurrent=conc, async_backend=r.random() < 0.4)
+        live = r.randbytes(r.randrange(1, 3 * mx))
+        mode = r.choice(['grow', 'grow', 'shrink', 'empty'])
+        k = r.choice([1, 2, 3, 5, 6, 7, 9, 13, 4, 8])
+        post = live + r.randbytes(k) if mode == 'grow' else live[:max(0, len(live) - k)] if mode == 'shrink' else b''
+        fs = {'a.log': live, 'data.bin': r.randbytes(60 * mx + r.randrange(4)), 'more.bin': r.randbytes(25 * mx + r.randrange(4))}
+        w.snapshot(0, fs)
+        with live_edit(w.src / 'a.log', post) as st:
+            second = w.snapshot(0, fs)
+        cid2len = {c_id: len(c_bytes) for c_bytes, c_id in w.contents.items()}
+        again = sum(cid2len[w.chunk_names[l][1]] for l in set(second['uploaded']))
+        bound = len(post) + 3 + 18 * mx
+        total = sum(len(v) for v in fs.values())
+        res['summary'] = {'enc': enc, 'chunking': list(chunking), 'concurrent': conc, 'mode': mode, 'delta': len(post) - len(live), 'live': len(live), 'edited-when-read': st['done'],
+                          'reuploaded': again, 'bound': bound, 'unchanged-bytes': total - len(live)}
+        if st['done'] and again > bound:
+            res['violations'].append(('dedup:unchanged-files-reuploaded-after-live-edit',
+                                      f'a {len(live)}-byte file became {len(post)} bytes between the collection of files and its read ({mode}); the second snapshot uploaded {again} chunk bytes again '
+                                      f'although only that file changed (bound: edited file + re-synchronisation window = {bound}; unchanged data: {total - len(live)} bytes); chunking {chunking}, concurrency {conc}', {}))
+    return res
+
+
 def check_dedup_model(res, drv, out, enc):
     bad = 0
     for st in res['steps']:
@@ -155,6 +192,7 @@ def run(out, drv, info):
                 'stores; de-duplication cases = file set with identical files / shared prefix / shared suffix at a shifted offset / block repeated inside a file / zero runs, '
                 '(min,max) from 5 settings (+3 with a 5–70 kB file), concurrency 1–8, in half of the cases bandwidth limit (none, 1 B/s … 1 GB/s) and connection count re-drawn for every command, first snapshot, repeats by owner / clone / shared-key user, independent-key user, modified data; '
                 'non-trivial = the chunk stream of some step contains a repeated chunk; distinct = hash of the case summary; '
+                'live-edit cases = a small file grows / shrinks / is emptied between the collection of files and its read while two larger files stay unchanged, non-trivial = edit length not a multiple of the alignment; '
                 'racy-upload cases = 2–4 overlapping real snapshot coroutines (pools of 1–5 workers, gated backend calls released observations-first / randomly / one command first, '
                 'data with zero runs, repeated blocks and blocks shared between the commands, 0–2 snapshots stored before), non-trivial = ≥ 1 chunk location was uploaded more than once')
     out.assumptions = ['ideal cryptography: digest = content id, MAC names injective per key family (DESIGN.md §4)',
@@ -180,6 +218,13 @@ def run(out, drv, info):
             out.violation(sig, what, dict(rp, kind='dedup', seed=out.seed, idx=res['idx']))
         if drv is not None:
             check_dedup_model(res, drv, out, res['summary']['enc'])
+    with mp.get_context('fork').Pool(min(16, os.cpu_count() or 4)) as pool:
+        lives = pool.map(live_case, [(out.seed, i) for i in range(32 if quick else 400)], chunksize=1)
+    for res in lives:
+        out.case(res['summary'], res['summary']['edited-when-read'] and res['summary']['delta'] % 4 != 0)
+        out.count('live-edit:' + res['summary']['mode'] + (':edited' if res['summary']['edited-when-read'] else ':NOT-EDITED'))
+        for sig, what, rp in res['violations']:
+            out.violation(sig, what, dict(rp, kind='live', seed=out.seed, idx=res['idx']))
 
 
 def replay(path, drv):
@@ -203,5 +248,11 @@ def _replay(path, drv):
         for dd in c.d:
             print('disagreement', dd)
         return 1 if (res['violations'] or bad) else 0
+    if rp.get('kind') == 'live':
+        res = live_case((rp.get('seed', 0), rp['idx']))
+        print('summary', res['summary'])
+        for v in res['violations']:
+            print('violation', v[0], v[1])
+        return 1 if res['violations'] else 0
     print('replay kind not supported:', rp.get('kind'))
     return 2
